@@ -631,6 +631,36 @@ def _contains(root, node):
 
 # --------------------------------------------------------------------------- plumbing
 
+def _p2p_evaluated(p2p):
+    """LogicSim.s_ppo_to_ppi evaluated (Engine M, array stand-in) on a state array with distinguishable bytes, for mdim 1..3 and several sets of
+    state-element rows, against the documented transfer: 2-/4-valued: s[0, rows] = s[1, rows]; 8-valued: initial := previous final, final := captured
+    final, toggle := their difference; every other element unchanged. True / False, None when outside the evaluator subset."""
+    from kvstatic import minieval
+    from kvstatic.ndarr import NDArr
+    for mdim in (1, 2, 3):
+        for rows in ([1], [0, 2, 3], [4, 1]):      # (an empty row set has no shape in the stand-in)
+            nrow, nb = 5, 2
+            old = [[[[(a * 131 + r * 31 + pl * 7 + b * 3 + 1) % 251 for b in range(nb)] for pl in range(mdim)] for r in range(nrow)] for a in range(2)]
+            want = [[[list(x) for x in r] for r in a] for a in old]
+            for r in rows:
+                if mdim < 3:
+                    want[0][r] = [list(x) for x in old[1][r]]
+                else:
+                    want[0][r][1] = list(old[0][r][0])
+                    want[0][r][0] = list(old[1][r][0])
+                    want[0][r][2] = [x ^ y for x, y in zip(old[1][r][0], old[0][r][0])]
+            me = minieval.NS(s=NDArr(old), ppio_s_locs=NDArr(rows), mdim=mdim, m=(2, 4, 8)[mdim - 1])
+            try:
+                minieval.call_function(p2p, [me])
+            except ModelError:
+                return None
+            except (IndexError, TypeError, ValueError, AttributeError, KeyError):
+                return False
+            if not isinstance(me.s, NDArr) or me.s.d != want:
+                return False
+    return True
+
+
 def check_plumbing(rep, repo, lmod, simmod, init):
     rep.rule('C01.plumbing', 'assign reads s[0] rows pippi_s_locs into pippi_c_locs; capture writes s[1] rows poppo_s_locs from '
                              'poppo_c_locs; *_c_locs = c_locs[offset + *_s_locs]; cycle = assign, propagate, capture, transfer')
@@ -668,7 +698,9 @@ def check_plumbing(rep, repo, lmod, simmod, init):
     p2p = lmod.func('LogicSim.s_ppo_to_ppi')
     want3 = 'self.s[0,self.ppio_s_locs]=self.s[1,self.ppio_s_locs]'
     iff = [st for st in body_no_doc(p2p) if isinstance(st, ast.If)]
-    ok = len(iff) == 1 and norm(iff[0].test).replace(' ', '') == 'self.mdim<3' and any(norm(st).replace(' ', '') == want3 for st in iff[0].body) and len(iff[0].body) == 1
+    ok = _p2p_evaluated(p2p)
+    if ok is None:      # outside the evaluator subset: the statement template decides
+        ok = len(iff) == 1 and norm(iff[0].test).replace(' ', '') == 'self.mdim<3' and any(norm(st).replace(' ', '') == want3 for st in iff[0].body) and len(iff[0].body) == 1
     rep.ob('C01.plumbing', 's_ppo_to_ppi', ok)
     if not ok:
         rep.violate('C01.plumbing', lmod, p2p, iff[0] if iff else p2p.body[0], 'for 2-/4-valued logic s_ppo_to_ppi must copy s[1, ppio_s_locs] to s[0, ppio_s_locs]', node=p2p)
